@@ -176,6 +176,27 @@ fn run_child(p: &Profile, tier: vpc::Tier, space: Space, lo: u64, hi: u64, threa
     }
 }
 
+/// What kind of statement panicked: look at the source line the panic location names.
+fn panic_kind(loc: &str, msg: &str) -> &'static str {
+    if msg.contains("with overflow") {
+        return "overflow";
+    }
+    let (file, line) = loc.rsplit_once(':').unwrap_or((loc, "0"));
+    let line: usize = line.parse().unwrap_or(0);
+    // the sciparse sources this binary was built against
+    let toml = std::fs::read_to_string(harness_dir().join("Cargo.toml")).unwrap_or_default();
+    let root = toml.lines().find(|l| l.starts_with("sciparse")).and_then(|l| l.split('"').nth(1)).map(|p| p.trim_end_matches("crates/libs/sciparse").to_string()).unwrap_or("/repo/".into());
+    if let Ok(src) = std::fs::read_to_string(Path::new(&root).join(file)) {
+        let lines: Vec<&str> = src.lines().collect();
+        for k in line.saturating_sub(4)..line.min(lines.len()) {
+            if lines[k].contains("debug_assert") {
+                return "debug-assert";
+            }
+        }
+    }
+    "panic"
+}
+
 fn signame(s: i32) -> String {
     match s {
         0 => "timeout".into(),
@@ -237,7 +258,11 @@ fn parent(args: &vpc::Args) -> ! {
             let m = merged.entry(p.name).or_default();
             let nshards = if thorough { 16 } else { 4 }.min(total.max(1));
             let mut restarts = 0;
+            let mut aborted = false;
             for sh in 0..nshards {
+                if aborted {
+                    break;
+                }
                 let (lo, hi) = (total * sh / nshards, total * (sh + 1) / nshards);
                 let mut skip: BTreeSet<String> = crash_classes.iter().filter(|c| c.1 == p.name).map(|c| c.0.clone()).collect();
                 loop {
@@ -276,15 +301,17 @@ fn parent(args: &vpc::Args) -> ! {
                                     break;
                                 }
                             }
-                            if restarts > 40 {
+                            if restarts >= 8 {
+                                // a pervasive defect: stop exploring this space under this profile
                                 complete = false;
+                                aborted = true;
                                 break;
                             }
                         }
                     }
                 }
             }
-            per_space.push(json!({"space": space.name(), "profile": p.name, "cases": total, "wall_s": ((run.elapsed_s() - t0) * 10.0).round() / 10.0, "child_restarts_after_crash": restarts}));
+            per_space.push(json!({"space": space.name(), "profile": p.name, "cases": total, "wall_s": ((run.elapsed_s() - t0) * 10.0).round() / 10.0, "child_restarts_after_crash": restarts, "abandoned_after_8_crash_classes": aborted}));
         }
     }
     let _ = std::fs::remove_dir_all(&scratch);
@@ -307,8 +334,12 @@ fn parent(args: &vpc::Args) -> ! {
             if rel.fails.contains_key(class) {
                 continue; // reported from the release results below
             }
-            let c2 = format!("relcheck-only-{class}");
-            report(&c2, *n, w, &format!("panics only in a build with debug assertions / overflow checks (release build: no panic here; see the release-profile classes for what happens instead): {}", w["what"].as_str().unwrap_or("")));
+            let msg = w["what"].as_str().unwrap_or("");
+            match panic_kind(&class["panic@".len()..], msg) {
+                "overflow" => report(&format!("overflow-check-{class}"), *n, w, &format!("arithmetic overflow: panics in builds with overflow checks, silently wraps in a release build: {msg}")),
+                "debug-assert" => report(&format!("debug-assert-{class}"), *n, w, &format!("a debug_assert! of the crate fires (not a production panic; a release build runs on past this point - see the release-profile classes for what happens then): {msg}")),
+                _ => report(class, *n, w, &format!("panics (seen in the relcheck profile; the statement is not a debug assertion, so a release build panics as well unless the operation was skipped there after a crash): {msg}")),
+            }
         } else {
             report(class, *n, w, w["what"].as_str().unwrap_or(""));
         }
